@@ -100,6 +100,45 @@ pub fn eval(ctx: &Ctx, case: &Case) -> Verdict {
     Ok(pass)
 }
 
+#[derive(Clone, Debug, Serialize, Deserialize)]
+pub struct ManyCase {
+    pub records: usize,
+    pub bcf: bool,
+}
+
+/// Counts beyond u8 / u16 / small-integer accumulators: one pattern of genotypes repeated N times.
+fn eval_many(ctx: &Ctx, case: &ManyCase) -> Verdict {
+    use crate::gen::callset::{Gt, Record};
+    let dir = ctx.worker_dir(crate::engine::worker_id());
+    let template = crate::props::c10::fresh_record(3);
+    let records: Vec<Record> = (0..case.records as u64)
+        .map(|i| Record {
+            pos: i + 1,
+            gts: vec![Gt::diploid(Some(0), Some(1), false), Gt::diploid(Some((i % 3 == 0) as u8), Some(1), i % 2 == 0), Gt::diploid(Some(0), Some(0), false)],
+            ..template.clone()
+        })
+        .collect();
+    let cs = CallSet {
+        contigs: vec!["ctgMany7".into()],
+        samples: vec!["a".into(), "b".into(), "c".into()],
+        records,
+    };
+    let map = MapSpec {
+        entries: vec![(1, Some(0)), (0, Some(1))],
+        labels: vec!["P".into(), "Q".into()],
+        as_file: false,
+    };
+    let want = create(&cs, &map, None);
+    let container = if case.bcf { Container::Bcf(crate::gen::bgzf::Layout::plain()) } else { Container::Vcf };
+    let (run, argv) = run_create(ctx, &dir, "c01m", &cs, &container, &CreateOpts { map: Some(map), ..Default::default() }, Transport::Path);
+    let got = cli::expect_spectrum(&run, &format!("`sfs {}` on {} records", argv.join(" "), case.records))?;
+    ensure!(got.values == want.spectrum.values, "{} identical-pattern records: printed {:?}, expected {:?}", case.records, got.tokens, want.spectrum.values);
+    for t in &got.tokens {
+        ensure!(t.bytes().all(|b| b.is_ascii_digit()), "count printed as {t:?}, not an exact integer");
+    }
+    Ok(Pass::new().nontrivial(true).label(format!("records={}", case.records)))
+}
+
 pub fn check(ctx: &Ctx) -> Check {
     let parts: Vec<Box<dyn Part>> = vec![Box::new(RandomPart {
         name: "create-counts",
@@ -108,6 +147,20 @@ pub fn check(ctx: &Ctx) -> Check {
         strategy: Box::new(|| strategy(GenParams::default()).boxed()),
         eval: Box::new(eval),
     })];
+    let mut parts = parts;
+    parts.push(Box::new(crate::engine::EnumPart {
+        name: "many-records",
+        rule: "one genotype pattern repeated 300 / 70 000 (thorough: 1 100 000) times in VCF and BGZF-BCF: the counts pass 255 and 65 535 (and 2^20) and must be exact and printed as integers",
+        exhaustive: false,
+        cases: Box::new(|ctx: &Ctx| {
+            let mut v = vec![ManyCase { records: 300, bcf: false }, ManyCase { records: 70_000, bcf: false }, ManyCase { records: 70_000, bcf: true }];
+            if ctx.tier == crate::engine::Tier::Thorough {
+                v.push(ManyCase { records: 1_100_000, bcf: true });
+            }
+            v
+        }),
+        eval: Box::new(eval_many),
+    }));
     Check {
         parts,
         level: "exploration",
